@@ -25,10 +25,7 @@ enum class {{ type_def.cpp.deprecated ~ type_def.cpp.name }} : unsigned {
     /*> if flag.none */
         {{- "0" -}}
     /*> elif flag.all */
-        {{- "0 | " -}}
-        /*> for flag in type_def.flags if not flag.none and not flag.all */
-            {{- flag.cpp.name ~ (" | " if not loop.last) -}}
-        /*> endfor */
+        {{- (2 ** (type_def.flags | rejectattr("none") | rejectattr("all") | list | length) - 1) ~ "u" -}}
     /*> else */
         {{- "1u << " ~ counter.value -}}
         /*> set counter.value = counter.value + 1 */
